@@ -30,7 +30,7 @@ RULE = ("first, bounded-exhaustively: every history of length <= 2 (quick) / <= 
         "that INCLUDE a same-named file from different directories, deletion and rewriting of one "
         "of those include files}, "
         "each followed by create(s); parse(x) for both standards and 4 fixed probe programs "
-        "(380 / 7239 runs; longer histories over the same alphabet are sampled, enumerated by run index); then, for the rest of the budget, one "
+        "(420 / 8420 runs; longer histories over the same alphabet are sampled, enumerated by run index); then, for the rest of the budget, one "
         "run = one seeded history of <=12 operations over {create(f2003|f2008|None|invalid), "
         "parse(valid_i|invalid_j, reader options, reader kind, stream fault at line k), direct "
         "rule use, fparser1 api.parse, print of an earlier tree, edit of an earlier tree, memo "
@@ -323,7 +323,7 @@ ALPHABET_POOL = {
     "X3": "program p\nx = max(1, 2)\nblock\ny = 1\nend block\nend program p\n",
 }
 ALPHABET = ["c03", "c08", "V1", "V2", "V3", "V4", "V5", "V6", "V7", "V8", "I1", "I2", "I3", "I4",
-            "I5", "Fa", "Fb", "Db", "Wb"]
+            "I5", "Fa", "Fb", "Ba", "Db", "Wb"]
 for _k, _t in enumerate(F08_ONLY):
     ALPHABET_POOL["N%d" % _k] = _t
 # the fixed file system of the alphabet: two directories whose main files INCLUDE a file of the
@@ -333,8 +333,12 @@ ALPHABET_FS = {
     "a/frag.inc": " integer :: from_a\n from_a = 1\n",
     "b/main.f90": " program incl\n include 'frag.inc'\n end program incl\n",
     "b/frag.inc": " real :: from_b\n from_b = sin(2.0)\n",
+    # fails *inside* the included file (declarations in the middle of an IF construct): the
+    # parse is abandoned while the include reader is still open
+    "a/bad2.f90": " program incl2\n x = 1\n if (x > 0) then\n include 'frag.inc'\n end if\n"
+                  " end program incl2\n",
 }
-FILE_SYMS = {"Fa": "a/main.f90", "Fb": "b/main.f90"}
+FILE_SYMS = {"Fa": "a/main.f90", "Fb": "b/main.f90", "Ba": "a/bad2.f90"}
 # the file system changes between parses: the include file of b is deleted / rewritten
 FS_SYMS = {"Db": ["fs_delete", "b/frag.inc"],
            "Wb": ["fs_write", "b/frag.inc", " logical :: from_b2\n from_b2 = .true.\n"]}
@@ -498,15 +502,17 @@ def generate(run_seed, cfg):
         frag_b = " real :: from_b\n from_b = sin(2.0)\n"
         main = " program incl\n include 'frag.inc'\n end program incl\n"
         bad = " program incl\n include 'frag.inc'\n x = = 1\n end program incl\n"
-        image = {"a/main.f90": main, "a/frag.inc": frag_a, "a/bad.f90": bad,
-                 "b/main.f90": main, "b/bad.f90": bad}
+        bad2 = (" program incl2\n x = 1\n if (x > 0) then\n include 'frag.inc'\n end if\n"
+                " end program incl2\n")
+        image = {"a/main.f90": main, "a/frag.inc": frag_a, "a/bad.f90": bad, "a/bad2.f90": bad2,
+                 "b/main.f90": main, "b/bad.f90": bad, "b/bad2.f90": bad2}
         if sw.random() < 0.7:
             image["b/frag.inc"] = frag_b
         case["fs"] = image
         fops = []
         for _ in range(sw.randrange(2, 5)):
             path = sw.choice(["a/main.f90", "b/main.f90", "a/bad.f90", "b/bad.f90",
-                              "a/main.f90", "b/main.f90"])
+                              "a/main.f90", "b/main.f90", "a/bad2.f90", "b/bad2.f90"])
             fops.append(["parse", path, {"ignore_comments": True}, "file", None])
             if sw.random() < 0.4:
                 fops.append(["create", sw.choice(["f2003", "f2008"])])
